@@ -390,13 +390,13 @@ theorem rangeState_lra (c : MCtx) (q : MetricQuery) (fn : RangeFn) (hk : q.range
     query shape: the matrix of the direct reading over the entries of `[from, to)` -/
 theorem planPhases_lra (o : Oracles) (c : MCtx) (hn : c.namesOk) (d : LokiDb) (q : MetricQuery) (fn : RangeFn)
     (hk : q.rangeAgg.kind = .lra fn) (hok : aggOk q)
-    (hm : q.rangeAgg.sel.matchers.length ≤ 63) (hms : 1000000 ∣ q.rangeAgg.durNs) (hd : 0 < q.rangeAgg.durNs) :
+    (hm : q.rangeAgg.sel.matchers.length ≤ 63) (hd : 0 < q.rangeAgg.durNs) :
     (evalSelA o (d.toDbM c) (planPhases false c q)).map normRow = matrixPts o c d q c.fromNs c.toNs := by
   have hrs := rangeState_lra c q fn hk
   apply planPhases_of_range false o c hn d q hm (isUnwrap_lra _ fn hk) hok
     (cmpStage q.rangeAgg.cmp (lraPts fn q.rangeAgg.durNs (d.samples.filter (entryMatches o c.toCtx d q.rangeAgg.sel))))
     [.named "agg_a"] (by simp)
-  · rw [hrs]; exact lraPhase_ok o c hn d q.rangeAgg.sel hm fn q.rangeAgg.durNs hms hd q.rangeAgg.cmp
+  · rw [hrs]; exact lraPhase_ok o c hn d q.rangeAgg.sel hm fn q.rangeAgg.durNs hd q.rangeAgg.cmp
   · rw [hrs]
   · exact cmpStage_labels _ _ _ (lraPts_stream fn _ _)
   · rw [hrs]; exact hasLabels_lra _ _ _ _
@@ -407,9 +407,9 @@ theorem planPhases_lra (o : Oracles) (c : MCtx) (hn : c.namesOk) (d : LokiDb) (q
     topk/bottomk, with any of the three comparisons, for step ≤ range and step > range alike. -/
 theorem planMetric_lra (o : Oracles) (c : MCtx) (hn : c.namesOk) (d : LokiDb) (q : MetricQuery) (fn : RangeFn)
     (hk : q.rangeAgg.kind = .lra fn) (hs : takesShortcut q = false) (hok : aggOk q)
-    (hm : q.rangeAgg.sel.matchers.length ≤ 63) (hms : 1000000 ∣ q.rangeAgg.durNs) (hd : 0 < q.rangeAgg.durNs) :
+    (hm : q.rangeAgg.sel.matchers.length ≤ 63) (hd : 0 < q.rangeAgg.durNs) :
     (evalSelA o (d.toDbM c) (planMetric c q)).map normRow = evalMetric o c d q := by
-  rw [planMetric_phases, hs, planPhases_lra o c hn d q fn hk hok hm hms hd, evalMetric_matrixPts]
+  rw [planMetric_phases, hs, planPhases_lra o c hn d q fn hk hok hm hd, evalMetric_matrixPts]
   unfold effWindow
   simp [hs]
 
